@@ -455,6 +455,7 @@ LocalMeshOK(e) ==
   /\ IsCanonRes(e.id, e.res)
   /\ e.sides = (IF e.res = 1 THEN 3 ELSE 5) /\ Len(e.twinned) = e.sides /\ Len(e.nbrs) = e.sides
   /\ \A i \in 1..e.sides : e.twinned[i] /\ IsCanonRes(e.nbrs[i], e.res) /\ e.nbrs[i] # e.id
+  /\ Len(e.inward) = e.sides /\ \A i \in 1..e.sides : e.inward[i]   \* just inside each edge the cell itself answers
 
 \* a batch of cells (vertex ids snapped by the harness, counter-clockwise) added to the growing surface
 MeshCellsResult(e, mesh) == AddCells(e.cells, 1, mesh)
